@@ -628,6 +628,40 @@ func contentWriters(c *Ctx, rule string) {
 			switch kind {
 			case "param":
 				_, okVal = v.(*ssa.Parameter)
+				// ... or the enclosing function's parameter captured by a closure of it (t.writeLocked(func(t *Tree) {
+				// t.leafBranch = val })): a free variable bound to a parameter (by value), or to a cell that only ever
+				// holds one
+				if !okVal {
+					src := v
+					if u, isU := src.(*ssa.UnOp); isU && u.Op == token.MUL {
+						src = u.X
+					}
+					if fv, isFV := src.(*ssa.FreeVar); isFV && f.Parent() != nil {
+						idx := -1
+						for i, x := range f.FreeVars {
+							if x == fv {
+								idx = i
+							}
+						}
+						instrs(f.Parent(), func(pin ssa.Instruction) {
+							mc, isMC := pin.(*ssa.MakeClosure)
+							if !isMC || mc.Fn != ssa.Value(f) || idx < 0 || idx >= len(mc.Bindings) {
+								return
+							}
+							b := mc.Bindings[idx]
+							if _, isP := b.(*ssa.Parameter); isP {
+								okVal = true
+							}
+							if al, isAl := b.(*ssa.Alloc); isAl {
+								if sv := singleStore(al); sv != nil {
+									if _, isP := unwrap(sv).(*ssa.Parameter); isP {
+										okVal = true
+									}
+								}
+							}
+						})
+					}
+				}
 			case "branch":
 				okVal = isNamed(v.Type(), "ctree", "branch")
 			case "nil":
